@@ -33,7 +33,7 @@ CONSTANTS SeqMod,      \* sequence number modulus (real: 2^16)
           FirstTs,     \* ideal timestamp of the first packet, subset of 0..TsMod-1
           TsSteps,     \* t - (t of the last in-order packet); |d| < TsMod/2
           ArrSteps,    \* a - (a of the previous packet); may be negative (clock jump)
-          Deviations,  \* subset of {"NoCycles", "NonModularTs", "NoClamp"}
+          Deviations,  \* subset of {"NoCycles", "NonModularTs", "NoClamp", "TransitNotModular"}
           CheckD       \* TRUE: evaluate D's jitter in every state (exhaustive runs); FALSE: simulation
 
 VARIABLES hist,   \* sequence of [x, t, a]: the arrival history (ideal values)
@@ -161,7 +161,11 @@ MAdd(s, p) ==
      ELSE LET cyc == IF s.maxSeq # NoneV /\ p.seq < s.maxSeq THEN s.cycles + SeqMod ELSE s.cycles
               upd == p.ts # s.lastTs /\ recv > 1
               dts == IF "NonModularTs" \in Deviations THEN p.ts - s.lastTs ELSE TsDiff(p.ts, s.lastTs)
-              d == Abs((p.a - s.lastArr) - dts)
+              \* "TransitNotModular": the relative transit is kept modulo TsMod, but the difference
+              \* of two transits is not reduced again (wrong when the transit crosses 0)
+              d == IF "TransitNotModular" \in Deviations
+                     THEN Abs(((p.a - p.ts) % TsMod) - ((s.lastArr - s.lastTs) % TsMod))
+                     ELSE Abs((p.a - s.lastArr) - dts)
           IN [s EXCEPT !.received = recv, !.baseSeq = base, !.cycles = cyc, !.maxSeq = p.seq,
                        !.jq4 = IF upd THEN JitterUpdate(s.jq4, d) ELSE s.jq4,
                        !.lastArr = p.a, !.lastTs = p.ts]
